@@ -167,6 +167,8 @@ cdef class DictBoxSortNNPS(NNPS):
             cache, sort_gids
         )
 
+        self.sort_gids = sort_gids
+
         # initialize the cells dict
         self.cells = {}
 
@@ -296,7 +298,8 @@ cdef class DictBoxSortNNPS(NNPS):
             nbrs.length = count
 
         if self.sort_gids:
-            self._sort_neighbors(nbrs.data, count, s_gid.data)
+            # count is only maintained when the array is preallocated.
+            self._sort_neighbors(nbrs.data, nbrs.length, s_gid.data)
 
     #### Private protocol ################################################
 
